@@ -411,6 +411,12 @@ func extractMrziTD3(mrz string) (string, error) {
 // of birth, date of expiry). The composite check digit and all other fields are ignored,
 // so OCR noise outside those three fields does not cause failure.
 func ConvertMrzToMrzi(mrzStr string) (string, error) {
+	// a blank is not an MRZ character; the check digits would treat it like the filler, but it would be copied
+	// into the MRZ information as it is and give other keys than the same data supplied field by field
+	if strings.Contains(mrzStr, " ") {
+		return "", fmt.Errorf("MRZ must not contain blanks")
+	}
+
 	switch len(mrzStr) {
 	case MRZLengthTD1:
 		return extractMrziTD1(mrzStr)
